@@ -25,6 +25,7 @@ type RunResult struct {
 	Discarded    string         `json:"discarded,omitempty"`    // non-empty: run proves nothing (reason)
 	Trace        []string       `json:"trace,omitempty"`        // decoded op / schedule trace
 	Steps        int            `json:"steps"`
+	Evals        int            `json:"evals"` // fault points / cases evaluated inside this run (0 = the run is one case)
 	SimNanos     int64          `json:"sim_nanos"`    // simulated time covered
 	TraceHash    uint64         `json:"trace_hash"`   // hash of the (task,point)/op sequence
 	StateHashes  []uint64       `json:"-"`            // distinct state digests reached
